@@ -210,7 +210,7 @@ var Properties = map[string]PropDef{
 
 // runMenuHarness: whole runs of the menu programs (harness/zzpub/run.go) under every schedule.
 func runMenuHarness() HarnessDef {
-	return HarnessDef{Name: "zzpub.ZZRunMenu", Quick: map[string]int{"MODES": 3}, Depth: 400, Loop: 3000, MaxPaths: 3000000, Sched: true}
+	return HarnessDef{Name: "zzpub.ZZRunMenu", Quick: map[string]int{"MODES": 3}, Thorough: map[string]int{"DEEP": 1}, Depth: 400, Loop: 3000, MaxPaths: 6000000, Sched: true}
 }
 
 // runMenuUnreducedHarness (thorough only): the light programs once more WITHOUT the sleep-set
@@ -226,12 +226,12 @@ func runMenuUnreducedHarness() HarnessDef {
 func runMenuMonitorHarness() HarnessDef {
 	h := runMenuHarness()
 	h.Quick = map[string]int{"MODES": 3, "MONITOR": 1, "LIGHT": 1}
-	h.Thorough = map[string]int{"LIGHT": 0}
+	h.Thorough = map[string]int{"LIGHT": 0, "DEEP": 1}
 	h.Note = "monitor attached; the order in which updates of different processes reach the monitor is treated as irrelevant"
 	return h
 }
 
-var runBounds = "whole runs: each of the menu programs of harness/zzpub/run.go (2-6 processes; close/wait, pair send/receive in both polarities, both choices, both shifts, cut with and without call, recursion to depth 2, positive and negative forwards and chains of two, split of a positive and of a negative provider, multi-name declaration, drop of a positive / negative / nested provider) in the three execution modes, under EVERY interleaving of the process goroutines at their channel operations (explored with sleep-set reduction; the numbers of complete and pruned interleavings are in the evidence)"
+var runBounds = "whole runs: each of the 46 menu programs of harness/zzpub/run.go (2-6 processes; m38 only in the thorough tier; close/wait, pair send/receive in both polarities, both choices, both shifts, cut with and without call, recursion to depth 2, positive and negative forwards and chains of two, split of a positive and of a negative provider, multi-name declaration, drop of a positive / negative / nested provider) in the three execution modes, under EVERY interleaving of the process goroutines at their channel operations (explored with sleep-set reduction; the numbers of complete and pruned interleavings are in the evidence)"
 
 var runAssumptions = []string{
 	"schedule choices are explored by forking the executor at every visible operation (channel send / receive / select / close); they are not encoded into the solver. The code between two visible operations of one goroutine is executed atomically, which is sound for race-free code; the happens-before monitor (C13) checks that assumption on every explored path",
